@@ -5,7 +5,7 @@ from sa.paths import gate_check, loops, Cfg
 from sa.flow import origin_chain, all_defs
 from sa.match import comparison, const_value
 from sa.build import AnalysisBroken
-from props.common import declref, stream_insertions, literal_text, switch_table
+from props.common import declref, stream_insertions, literal_text, switch_table, assignments
 
 UNITS = ['src/daemon/ControlServer.cpp', 'src/daemon/ControlClient.cpp']
 LEVEL = 'other'
@@ -218,6 +218,63 @@ def run(ck):
             lim_ok = True
     ck.ob('C29.reader', 'C29.reader/line-limit', lim_ok, rl.loc(),
           'the client bounds a response line by max_control_stream_bytes() (as it bounds payloads), not by the 16 KiB request-line limit')
+
+    # the client gives up on a response only for a closed set of reasons: no status line, an unparsable PAYLOAD-LENGTH, a declared
+    # payload larger than max_control_stream_bytes() (the same ceiling the daemon applies when it sends), or a truncated body —
+    # any further condition refuses responses the daemon legitimately produces
+    def _disj(f, n):
+        n = f.strip(n)
+        if f.nodes[n]['k'] == 'BinaryOperator' and f.nodes[n].get('op') == '||':
+            return _disj(f, f.kids(n)[0]) + _disj(f, f.kids(n)[1])
+        return [n]
+
+    def _ok_reason(f, c, in_else):
+        nd = f.nodes[c]
+        if in_else:
+            return any(f.nodes[j]['k'] == 'MemberExpr' and f.nodes[j].get('n') in ('ec', 'ptr') for j in f.walk(c))
+        if nd['k'] == 'UnaryOperator' and nd.get('op') == '!':
+            inner = f.strip(f.kids(c)[0])
+            inn = f.nodes[inner]
+            if (inn.get('callee') or '').endswith('::recv_exact'):
+                return True
+            if inn['k'] == 'DeclRefExpr' and (inn.get('t') or '').replace('const ', '') == 'bool':
+                defs = all_defs(f, inn['d'])
+                return all(rhs_ is None or const_value(f, rhs_) in (0, 1) for _k, rhs_, _s in defs)
+            return False
+        cmp_ = comparison(f, c)
+        if cmp_ and cmp_[0] == '>':
+            from sa.flow import value_sources as _vs29
+            lim = any((f.nodes[j].get('callee') or '').endswith('max_control_stream_bytes') for j in _vs29(f, cmp_[2]))
+            lhs = f.nodes[f.strip(cmp_[1])]
+            plain = lhs['k'] in ('CXXOperatorCallExpr', 'UnaryOperator') and lhs.get('op') == '*' or (lhs.get('callee') or '').endswith('::value')
+            return lim and plain and f.nodes[f.strip(cmp_[2])]['k'] in ('DeclRefExpr', 'CallExpr')
+        return False
+    fails29 = []
+    nfail = 0
+    for l_, r_, s_ in assignments(pr):
+        ln = pr.nodes[pr.strip(l_, casts=False)]
+        if ln['k'] != 'MemberExpr' or not (ln.get('m') or '').endswith('ControlResponse::success') or const_value(pr, r_) != 0:
+            continue
+        nfail += 1
+        guard, in_else = None, False
+        prev = s_
+        for a_ in pr.ancestors(s_):
+            an_ = pr.nodes[a_]
+            if an_['k'] == 'IfStmt':
+                guard = an_['cond']
+                in_else = an_.get('else') is not None and an_['else'] >= 0 and (prev == an_['else'] or pr.is_in(prev, an_['else']))
+                break
+            prev = a_
+        if guard is None:
+            fails29.append((s_, 'unconditional'))
+            continue
+        for c_ in ([guard] if in_else else _disj(pr, guard)):
+            if not _ok_reason(pr, c_, in_else):
+                fails29.append((s_, pr.text(c_)[:70]))
+    ck.floor('C29.reader', 'places where the client marks a response failed', nfail, 4)
+    ck.ob('C29.reader', 'C29.reader/refusals-closed', not fails29, pr.loc(fails29[0][0]) if fails29 else pr.loc(),
+          'the client fails a response only for: missing STATUS, unparsable PAYLOAD-LENGTH, PAYLOAD-LENGTH > max_control_stream_bytes(), truncated body'
+          + ('' if not fails29 else ' — other cause: `%s`' % fails29[0][1]))
 
     # byte completeness of the line reader: every byte taken off the socket is appended to the line, except the '\n' that
     # ends the line and '\r' (CR LF framing); the rule is stated for a reader that consumes one byte per recv call
